@@ -11,6 +11,6 @@ EXTEND = {
         "Vacuity.C06.map_leaf_inj", "Vacuity.C06.avk_ok", "Vacuity.C06.avk_injective_on",
         # instances
         "Vacuity.C06.close_eq_of_sorted", "Vacuity.C06.build_AB", "Vacuity.C06.close1", "Vacuity.C06.close2",
-        "Vacuity.C06.close2'", "Vacuity.C06.run1", "Vacuity.C06.run2", "Vacuity.C06.informed3",
+        "Vacuity.C06.close2r", "Vacuity.C06.run1", "Vacuity.C06.run2", "Vacuity.C06.informed3",
     ],
 }
